@@ -29,7 +29,8 @@ EXPLANATION = (
     "branch array with component-relative positions, or storing sorted-order values at table-order rows is a "
     "violation. (R6.3) _sum_by_group_numba falls back to the numpy implementation under its index bound and both "
     "return (unique sorted indices, sums...). (R6.4) every read of net._lookups['internal_nodes'/'internal_branches'][t] "
-    "uses rows of the form branch_index[t][labels] - start(t). (R6.5) the outputs of np.where over a condition are parallel arrays in pair order: one output is never indexed by another output of the same call, and an output of an outer comparison is scattered by the positions of the other output, never stored over all rows. (R6.7, shared with C04 R4.9) internal valve nodes are keyed by the pair of both reference columns compared row-wise. "
+    "uses rows of the form branch_index[t][labels] - start(t). (R6.5) the outputs of np.where over a condition are parallel arrays in pair order: one output is never indexed by another output of the same call, and an output of an outer comparison is scattered by the positions of the other output, never stored over all rows. (R6.8, shared with C04 R4.8) the hooks that run on the reduced pit pair its rows only with arrays reduced by the same active "
+    "lookup, never with element-table rows. (R6.7, shared with C04 R4.9) internal valve nodes are keyed by the pair of both reference columns compared row-wise. "
     "(R6.6) user labels (reference columns of element tables, table indices) never enter arithmetic anywhere in the package; they are compared, sorted, made unique or used as index of an index lookup. Decided: these three mechanisms; not decided: "
     "permutation invariance of results as such.")
 ASSUMPTIONS = ["numpy fancy indexing semantics", "the sections of one element occupy adjacent pit rows in table order "
@@ -637,4 +638,12 @@ def r6_7(run):
     r4_9(run)
 
 
-RULES = [("R6.1", r6_1), ("R6.2", r6_2), ("R6.3", r6_3), ("R6.4", r6_4), ("R6.5", r6_5), ("R6.6", r6_6), ("R6.7", r6_7)]
+def r6_8(run):
+    """row order: inside the Newton loop row k of the reduced pit is the k-th *calculated* element; pairing it with the k-th
+    table row (an element table read directly, or the component array of all rows) makes the result depend on where the
+    non-calculated elements stand in the table (shared with C04 R4.8)"""
+    from .c04 import r4_8
+    r4_8(run)
+
+
+RULES = [("R6.1", r6_1), ("R6.2", r6_2), ("R6.3", r6_3), ("R6.4", r6_4), ("R6.5", r6_5), ("R6.6", r6_6), ("R6.7", r6_7), ("R6.8", r6_8)]
